@@ -1164,6 +1164,7 @@ def commit_design(ctx):
     # opening a file, step by step, over every header an interrupted run can leave (the decisions Commit.tla's Crash uses)
     tlc_check(ctx, "Recover", "MC_Recover.cfg", workers=4, timeout=600)
     tlc_expect_violation(ctx, "Recover", "MC_Recover_nonewer.cfg", "Newest", workers=2)
+    tlaps_recover(ctx)
 
 
 def run_recio(ctx, runs, steps, every):
@@ -1202,6 +1203,22 @@ def run_recio(ctx, runs, steps, every):
         raise ToolError("self-test failed: CommitTrace accepts a recovery whose repair commit is not flushed before the swap")
     ctx.notes.setdefault("binding_selftests", []).append("CommitTrace rejects a recovery trace with the flush before the repair commit's swap removed")
     return stats
+
+
+def tlaps_recover(ctx):
+    """TLAPS: Sound / Newest / Available of the open-time decision for arbitrary transaction ids, and that Decide is the
+    composition the theorems speak about (RecoverProofs.tla)"""
+    d = os.path.join(ctx.work, "tlaps")
+    os.makedirs(d, exist_ok=True)
+    for f in ("RecoverProofs.tla", "RecoverOps.tla"):
+        shutil.copy(os.path.join(SPEC, f), d)
+    p = sh(["timeout", "900", "tlapm", "--threads", "4", "RecoverProofs.tla"], cwd=d, timeout=960, check=False)
+    out = p.stdout + p.stderr
+    m = re.search(r"All (\d+) obligations proved", out)
+    if not m:
+        raise ToolError(f"TLAPS did not prove RecoverProofs.tla:\n{out[-1500:]}")
+    log(f"TLAPS RecoverProofs: all {m.group(1)} obligations proved ({p.wall:.1f}s)")
+    ctx.notes["tlaps"] = {"module": "RecoverProofs", "obligations_proved": int(m.group(1))}
 
 
 def resize_design(ctx):
